@@ -1711,4 +1711,151 @@ theorem rowsOf_flatten_mem {α} (k : Nat) (l : List α) (x : α) (hx : x ∈ (ro
   rcases List.mem_map.mp hr with ⟨j, _, rfl⟩
   exact List.mem_of_mem_drop (List.mem_of_mem_take hxr)
 
+/-! ## `int(1e9 / (1e9 / dt))` in exact binary64 arithmetic (deepening round D) -/
+
+
+theorem mul_swap4 (X p q r : Nat) : X * p * (q * r) = X * q * (p * r) := by
+  rw [Nat.mul_assoc, Nat.mul_assoc, Nat.mul_left_comm p q r]
+
+theorem pow_shift (X Y a b a' b' : Nat) (h : X * 2 ^ a ≤ Y * 2 ^ b) (e : a + b' = b + a') :
+    X * 2 ^ a' ≤ Y * 2 ^ b' := by
+  apply Nat.le_of_mul_le_mul_right (c := 2 ^ (a + b')) _ (Nat.pow_pos (by omega))
+  have h' := Nat.mul_le_mul_right (2 ^ (a' + b')) h
+  have e1 : X * 2 ^ a' * 2 ^ (a + b') = X * 2 ^ a * 2 ^ (a' + b') := by
+    rw [Nat.pow_add, Nat.pow_add, mul_swap4]
+  have e2 : Y * 2 ^ b' * 2 ^ (a + b') = Y * 2 ^ b * 2 ^ (a' + b') := by
+    rw [e, Nat.pow_add, Nat.pow_add, Nat.mul_comm (2 ^ a') (2 ^ b'), mul_swap4]
+  rw [e1, e2]; exact h'
+
+theorem scaled_core (p q lp lq c : Nat) (h1 : 2 ^ lp ≤ p) (h2 : q < 2 ^ (lq + 1)) :
+    (q * 2 ^ (lp - (lq + (c + 1))) * 2 ^ (c + 1) ≤ p * 2 ^ ((lq + (c + 1)) - lp) →
+      q * 2 ^ (lp - (lq + c)) * 2 ^ c ≤ p * 2 ^ ((lq + c) - lp)) ∧
+    q * 2 ^ (lp - (lq + (c + 1))) * 2 ^ c ≤ p * 2 ^ ((lq + (c + 1)) - lp) := by
+  constructor
+  · intro h
+    rw [Nat.mul_assoc, ← Nat.pow_add] at h ⊢
+    exact pow_shift _ _ _ _ _ _ h (by omega)
+  · have h3 : q * 2 ^ lp ≤ p * 2 ^ (lq + 1) := by
+      have := Nat.mul_le_mul (Nat.le_of_lt h2) h1
+      rw [Nat.mul_comm (2 ^ (lq + 1))] at this; exact this
+    rw [Nat.mul_assoc, ← Nat.pow_add]
+    exact pow_shift _ _ _ _ _ _ h3 (by omega)
+
+/-- the chosen exponent scales the quotient to at least `2^c` -/
+theorem rnExp_scaled (c p q : Nat) (hp : 0 < p) :
+    q * 2 ^ (rnExp c p q).1 * 2 ^ c ≤ p * 2 ^ (rnExp c p q).2 := by
+  have h1 : 2 ^ p.log2 ≤ p := Nat.log2_self_le (by omega)
+  have h2 : q < 2 ^ (q.log2 + 1) := Nat.lt_log2_self
+  have hc := scaled_core p q p.log2 q.log2 c h1 h2
+  unfold rnExp
+  by_cases h : q * 2 ^ (p.log2 - (q.log2 + (c + 1))) * 2 ^ (c + 1) ≤ p * 2 ^ ((q.log2 + (c + 1)) - p.log2)
+  · rw [if_pos h]; exact hc.1 h
+  · rw [if_neg h]; exact hc.2
+
+theorem roundHalfEven_bounds (A B : Nat) (hB : 0 < B) :
+    2 * (roundHalfEven A B * B) ≤ 2 * A + B ∧ 2 * A ≤ 2 * (roundHalfEven A B * B) + B := by
+  have hdm := Nat.div_add_mod A B
+  have hr := Nat.mod_lt A hB
+  have e1 : (A / B + 1) * B = B * (A / B) + B := by rw [Nat.add_mul, Nat.mul_comm]; omega
+  have e0 : A / B * B = B * (A / B) := Nat.mul_comm _ _
+  unfold roundHalfEven
+  simp only []
+  split
+  · rw [e0]; omega
+  · split
+    · rw [e1]; omega
+    · split
+      · rw [e0]; omega
+      · rw [e1]; omega
+
+/-- the relative error of one rounded division is at most `2^-53`, in cross-multiplied form -/
+theorem rnDiv_err (p q : Nat) (hp : 0 < p) (hq : 0 < q) :
+    0 < (rnDiv p q).2 ∧
+    9007199254740992 * ((rnDiv p q).1 * q) ≤ 9007199254740993 * (p * (rnDiv p q).2) ∧
+    9007199254740991 * (p * (rnDiv p q).2) ≤ 9007199254740992 * ((rnDiv p q).1 * q) := by
+  have hs := rnExp_scaled 52 p q hp
+  unfold rnDiv
+  simp only []
+  generalize (rnExp 52 p q).1 = u at hs ⊢
+  generalize (rnExp 52 p q).2 = v at hs ⊢
+  have hB : 0 < q * 2 ^ u := Nat.mul_pos hq (Nat.pow_pos (by omega))
+  have hb := roundHalfEven_bounds (p * 2 ^ v) (q * 2 ^ u) hB
+  have e : roundHalfEven (p * 2 ^ v) (q * 2 ^ u) * 2 ^ u * q
+      = roundHalfEven (p * 2 ^ v) (q * 2 ^ u) * (q * 2 ^ u) := by
+    rw [Nat.mul_assoc, Nat.mul_comm (2 ^ u) q]
+  rw [e]
+  generalize roundHalfEven (p * 2 ^ v) (q * 2 ^ u) * (q * 2 ^ u) = mB at hb ⊢
+  generalize p * 2 ^ v = A at hs hb ⊢
+  generalize q * 2 ^ u = B at hs hb hB ⊢
+  refine ⟨Nat.pow_pos (by omega), ?_, ?_⟩ <;> omega
+
+/-- two rounded divisions in a row: `n1/d1 ≈ E/dt`, `n2/d2 ≈ E/(n1/d1)`, each with relative error at most
+    `1/K` (`Km = K − 1`, `Kp = K + 1`), give `Km·n2 ≤ Kp·dt·d2` and `Km·dt·d2 ≤ Kp·n2`. -/
+theorem two_stage (K Km Kp E dt n1 d1 n2 d2 : Nat) (hK : 0 < K) (hKm : 0 < Km) (hE : 0 < E) (hdt : 0 < dt)
+    (hd1 : 0 < d1)
+    (S1u : K * (n1 * dt) ≤ Kp * (E * d1)) (S1l : Km * (E * d1) ≤ K * (n1 * dt))
+    (S2u : K * (n2 * n1) ≤ Kp * (E * d1 * d2)) (S2l : Km * (E * d1 * d2) ≤ K * (n2 * n1)) :
+    Km * n2 ≤ Kp * (dt * d2) ∧ Km * (dt * d2) ≤ Kp * n2 := by
+  have hn1 : 0 < n1 := by
+    rcases Nat.eq_zero_or_pos n1 with h | h
+    · subst h
+      have : 0 < Km * (E * d1) := Nat.mul_pos hKm (Nat.mul_pos hE hd1)
+      simp at S1l; omega
+    · exact h
+  have hc : 0 < K * n1 := Nat.mul_pos hK hn1
+  constructor
+  · apply Nat.le_of_mul_le_mul_right (c := K * n1) _ hc
+    have a := Nat.mul_le_mul_left Km S2u
+    have b := Nat.mul_le_mul_left (Kp * d2) S1l
+    have e1 : Km * n2 * (K * n1) = Km * (K * (n2 * n1)) := by ac_rfl
+    have e2 : Km * (Kp * (E * d1 * d2)) = Kp * d2 * (Km * (E * d1)) := by ac_rfl
+    have e3 : Kp * d2 * (K * (n1 * dt)) = Kp * (dt * d2) * (K * n1) := by ac_rfl
+    rw [e1, ← e3]
+    exact Nat.le_trans a (e2 ▸ b)
+  · apply Nat.le_of_mul_le_mul_right (c := K * n1) _ hc
+    have a := Nat.mul_le_mul_left (Km * d2) S1u
+    have b := Nat.mul_le_mul_left Kp S2l
+    have e1 : Km * (dt * d2) * (K * n1) = Km * d2 * (K * (n1 * dt)) := by ac_rfl
+    have e2 : Km * d2 * (Kp * (E * d1)) = Kp * (Km * (E * d1 * d2)) := by ac_rfl
+    have e3 : Kp * (K * (n2 * n1)) = Kp * n2 * (K * n1) := by ac_rfl
+    rw [e1, ← e3]
+    exact Nat.le_trans a (e2 ▸ b)
+
+
+/-- the float round trip of a sample period loses at most one nanosecond, downwards -/
+theorem deltaSoft_near (dt : Nat) (h1 : 1 ≤ dt) (h2 : dt ≤ 1000000000000000) :
+    dt - 1 ≤ deltaSoft dt ∧ deltaSoft dt ≤ dt := by
+  unfold deltaSoft
+  simp only []
+  have s1 := rnDiv_err 1000000000 dt (by omega) (by omega)
+  generalize (rnDiv 1000000000 dt).1 = n1 at s1 ⊢
+  generalize (rnDiv 1000000000 dt).2 = d1 at s1 ⊢
+  have hn1 : 0 < n1 := by
+    rcases Nat.eq_zero_or_pos n1 with h | h
+    · subst h
+      have : 0 < 1000000000 * d1 := Nat.mul_pos (by omega) s1.1
+      omega
+    · exact h
+  have s2 := rnDiv_err (1000000000 * d1) n1 (Nat.mul_pos (by omega) s1.1) hn1
+  generalize (rnDiv (1000000000 * d1) n1).1 = n2 at s2 ⊢
+  generalize (rnDiv (1000000000 * d1) n1).2 = d2 at s2 ⊢
+  have hd2 := s2.1
+  have ts := two_stage 9007199254740992 9007199254740991 9007199254740993 1000000000 dt n1 d1 n2 d2
+    (by omega) (by omega) (by omega) (by omega) s1.1 s1.2.1 s1.2.2 s2.2.1 s2.2.2
+  have hY : dt * d2 ≤ 1000000000000000 * d2 := Nat.mul_le_mul_right d2 h2
+  have hY1 : 1 * d2 ≤ dt * d2 := Nat.mul_le_mul_right d2 h1
+  constructor
+  · rw [Nat.le_div_iff_mul_le hd2, Nat.sub_mul]
+    generalize dt * d2 = Y at ts hY hY1 ⊢
+    omega
+  · apply Nat.le_of_lt_succ
+    rw [Nat.div_lt_iff_lt_mul hd2, Nat.succ_mul]
+    generalize dt * d2 = Y at ts hY hY1 ⊢
+    omega
+
+theorem deltaSoft_one : deltaSoft 1 = 1 := by decide +kernel
+
+example : deltaSoft 55 = 54 ∧ deltaSoft 57 = 56 ∧ deltaSoft 110 = 109 ∧ deltaSoft 12800 = 12800 ∧
+    deltaSoft 100000000 = 100000000 := by decide +kernel
+
 end Verif.C03
